@@ -85,9 +85,10 @@ class PFunc:  # lambda / nested def closure
 
 
 class PBound:
-    def __init__(self, selfv, finfo: FuncInfo):
+    def __init__(self, selfv, finfo: FuncInfo, exact=False):
         self.selfv = selfv
         self.finfo = finfo
+        self.exact = exact  # reached through super(): exactly this implementation, no dynamic dispatch
 
 
 class PClass:
@@ -424,7 +425,7 @@ def enum_value_sv(ci: ClassInfo, name) -> SV:
 
 # ------------------------------------------------------------------------------------------------ interpreter
 PURE_BUILTINS = {"len", "isinstance", "int", "str", "bool", "float", "min", "max", "abs", "old", "implies", "iff",
-                 "forall", "exists", "forall_obj", "exists_obj", "type", "hasattr", "getattr", "IPv4Address", "ite", "bit", "fresh", "seq", "epoch", "unchanged", "n_events", "plen", "in_net", "valid_mask"}
+                 "forall", "exists", "forall_obj", "exists_obj", "type", "hasattr", "getattr", "IPv4Address", "ite", "bit", "fresh", "seq", "epoch", "unchanged", "n_events", "plen", "in_net", "valid_mask", "dict_key", "dict_val", "event_kind", "event_arg", "ev"}
 
 
 class Interp:
@@ -518,6 +519,8 @@ class Interp:
             return SV(smt.mk_ref(r), T.TUPLE(*tys))
         if isinstance(v, PClass):
             return SV(smt.mk_ref(-(10**8 + v.ci.cid)), T.ANY, ("class", v.ci.name))
+        if isinstance(v, PLog):
+            return SV(smt.mk_ref(self.st.new_ref(-8)), T.ANY, ("log",))
         if isinstance(v, (PFunc, PBound, PExt)):
             # callables stored in the heap: opaque fresh reference remembered python-side
             st = self.st
@@ -647,6 +650,14 @@ class Interp:
             return g
         if n in ("True", "False", "None"):
             return const({"True": True, "False": False, "None": None}[n])
+        if self.st.spec_depth and n not in BUILTIN_TYPES and n not in BUILTIN_FUNCS:
+            # contracts may name any class of the repository, whether or not the function's module imports it
+            try:
+                return PClass(self.repo.class_by_name(n))
+            except KeyError:
+                pass
+            if n == "IPv4Address":
+                return PExt("ipaddress.IPv4Address")
         if n in BUILTIN_TYPES:
             return PExt("builtins." + n)
         if n in BUILTIN_EXC:
@@ -1047,7 +1058,11 @@ class Interp:
         left = self.ev(node.left, fr)
         res = []
         for op, rn in zip(node.ops, node.comparators):
-            right = self.ev(rn, fr)
+            if isinstance(op, (ast.In, ast.NotIn)) and isinstance(rn, (ast.List, ast.Set)) and not any(isinstance(e, ast.Starred) for e in rn.elts):
+                # membership in a literal list/set: no allocation, just a disjunction of equalities
+                right = PTuple([self.ev(e, fr) for e in rn.elts])
+            else:
+                right = self.ev(rn, fr)
             res.append(self.compare(op, left, right, node))
             left = right
         if len(res) == 1:
@@ -1200,7 +1215,7 @@ class Interp:
             m = ci.find_method_after(attr, base.after) if ci else None
             if m is None:
                 raise Refuse(f"super().{attr} not found")
-            return PBound(base.selfv, m)
+            return PBound(base.selfv, m, exact=True)
         if isinstance(base, PTuple):
             raise Refuse(f"attribute {attr} of tuple")
         if isinstance(base, (PFunc, PBound)):
@@ -1446,9 +1461,9 @@ class Interp:
         from .calls import eval_call
         return eval_call(self, node, fr)
 
-    def call_function(self, finfo, selfv, args, kwargs, fr, node=None):
+    def call_function(self, finfo, selfv, args, kwargs, fr, node=None, exact=False):
         from .calls import call_function
-        return call_function(self, finfo, selfv, args, kwargs, fr, node)
+        return call_function(self, finfo, selfv, args, kwargs, fr, node, exact)
 
     # ---------------------------------------------------------------- statements
     def exec_block(self, stmts, fr: Frame):
